@@ -374,6 +374,10 @@ func satEnumerate(s *Shard, prop string, fn func(c *Case)) {
 							rc.Reverse = true
 							fn(&Case{Prop: prop, Kind: "satisfaction", Req: satRequest(rc)})
 						}
+						if g.n == 3 && si%3 == 0 {
+							// the same with untidy ids (leading / trailing whitespace, upper case, a whitespace-only id)
+							fn(&Case{Prop: prop, Kind: "satisfaction", Req: renameIDs(satRequest(cfg), untidyIDs)})
+						}
 						if g.n >= 2 && g.n <= 3 && g.m == 2 && si%5 == 0 {
 							for _, k := range []float64{0, 0.5, 1 - 1.0/(1<<53)} {
 								cfg.Random = true
